@@ -189,6 +189,22 @@ fn child_once(c: &J) -> J {
             }
           }
         }
+        // the other way a model gets built: stored in a workspace and deployed (Workspace::deploy builds the evaluators
+        // of all stored models); what it answers is C17's matter, that it answers is this property's
+        let first = c["names"].as_array().and_then(|a| a.first()).and_then(|n| n.as_str()).unwrap_or("").to_string();
+        if let Err(msg) = guarded(|| {
+          if let Ok(defs2) = dmntk_model::parse(xml) {
+            let model_name = dmntk_model::model::NamedElement::name(&defs2).to_string();
+            let mut ws = dmntk_workspace::Workspace::new(None);
+            let _ = ws.add(defs2);
+            let _ = ws.deploy();
+            if let Some(ctx) = ctxs.first() {
+              let _ = ws.evaluate_invocable(&model_name, &first, ctx);
+            }
+          }
+        }) {
+          panics.push(json!({"stage": "deploy", "msg": msg}));
+        }
         ("model", "evaluator")
       }
     },
@@ -322,6 +338,30 @@ fn load_models() -> Vec<Model> {
   models
 }
 
+/// A generated model that is large in three directions: a decision whose logic is an `if` chain 1600 branches deep, a
+/// chain of 150 decisions each requiring the one before, a decision table of 600 rules. (Loaded, built, deployed and
+/// invoked as it is; not fault-injected.)
+fn deep_model_xml() -> String {
+  let mut x = String::from("<?xml version=\"1.0\" encoding=\"UTF-8\"?>\n<definitions xmlns=\"https://www.omg.org/spec/DMN/20191111/MODEL/\" namespace=\"https://verif/c12deep\" name=\"c12deep\" id=\"_c12deep\">\n");
+  x.push_str("<inputData name=\"Code\" id=\"i_code\"><variable name=\"Code\" typeRef=\"number\"/></inputData>\n");
+  let mut chain = String::new();
+  for i in 1..=1600 {
+    chain.push_str(&format!("if Code = {} then \"R{}\" else ", i, i));
+  }
+  chain.push_str("\"none\"");
+  x.push_str(&format!("<decision name=\"Label\" id=\"d_label\"><variable name=\"Label\"/><informationRequirement><requiredInput href=\"#i_code\"/></informationRequirement><literalExpression><text>{}</text></literalExpression></decision>\n", chain));
+  x.push_str("<decision name=\"c0\" id=\"d_c0\"><variable name=\"c0\"/><informationRequirement><requiredInput href=\"#i_code\"/></informationRequirement><literalExpression><text>Code + 1</text></literalExpression></decision>\n");
+  for i in 1..150 {
+    x.push_str(&format!("<decision name=\"c{i}\" id=\"d_c{i}\"><variable name=\"c{i}\"/><informationRequirement><requiredDecision href=\"#d_c{j}\"/></informationRequirement><literalExpression><text>c{j} + 1</text></literalExpression></decision>\n", i = i, j = i - 1));
+  }
+  x.push_str("<decision name=\"Table\" id=\"d_table\"><variable name=\"Table\"/><informationRequirement><requiredInput href=\"#i_code\"/></informationRequirement><decisionTable hitPolicy=\"UNIQUE\"><input><inputExpression><text>Code</text></inputExpression></input><output/>");
+  for i in 1..=600 {
+    x.push_str(&format!("<rule><inputEntry><text>{}</text></inputEntry><outputEntry><text>\"T{}\"</text></outputEntry></rule>", i, i));
+  }
+  x.push_str("</decisionTable></decision>\n</definitions>\n");
+  x
+}
+
 fn normalise_panic(msg: &str) -> String {
   let (m, loc) = msg.rsplit_once(" at ").unwrap_or((msg, ""));
   let file = loc.rsplit_once(':').map(|(f, _)| f).unwrap_or(loc);
@@ -405,6 +445,9 @@ pub fn check(mut ctx: Ctx, replay: Option<J>) -> ! {
     for (m, model) in models.iter().enumerate() {
       recs.push(json!({"src": "bytes", "m": m + 1, "ops": [], "seed": 0, "model": model.path}));
     }
+    // a large generated model, as it is
+    recs.push(json!({"src": "bytes", "m": 1, "ops": [], "seed": 0, "model": "generated/c12_deep.dmn", "xml": deep_model_xml(),
+      "ctxs": ["{Code: 2}", "{Code: 1600}", "{Code: 5000}", "{}"], "names": ["Label", "c149", "Table"]}));
     // random character-level corruption (each record carries the seed of its own corruption)
     let mut rng = Rng::new(ctx.seed);
     let small: Vec<usize> = (0..models.len()).filter(|m| models[*m].xml.len() < 60_000).collect();
@@ -465,13 +508,20 @@ pub fn check(mut ctx: Ctx, replay: Option<J>) -> ! {
         }
       }
     }
+    if let Some(given) = r["names"].as_array() {
+      names = given.iter().filter_map(|n| n.as_str().map(|n| n.to_string())).collect();
+    }
     names.truncate(12);
     let retarget = r["ops"].as_array().map_or(false, |a| a.iter().any(|o| ["missing", "self", "other", "ancestor", "selfpad", "ancestorpad"].contains(&o["f"].as_str().unwrap_or(""))));
-    json!({"xml": t, "ctxs": model.map(|m| m.ctxs.clone()).unwrap_or_else(|| vec!["{}".to_string()]), "names": names, "count": count, "repeats": if retarget { 6 } else { 1 }})
+    let ctxs: Vec<String> = match r["ctxs"].as_array() {
+      Some(given) => given.iter().filter_map(|c| c.as_str().map(|c| c.to_string())).collect(),
+      None => model.map(|m| m.ctxs.clone()).unwrap_or_else(|| vec!["{}".to_string()]),
+    };
+    json!({"xml": t, "ctxs": ctxs, "names": names, "count": count, "repeats": if retarget { 6 } else { 1 }})
   };
   let results = {
     let recs = &recs;
-    crate::child::run_in_children_with("c12", &tlc.work_dir, recs.len(), 14, Duration::from_secs(30), &|i| input_of(&recs[i]))
+    crate::child::run_in_children_with("c12", &tlc.work_dir, recs.len(), 14, Duration::from_secs(90), &|i| input_of(&recs[i]))
   };
   let mut calls = 0u64;
   // documents given up after the death budget of the child runner was spent are not judged
@@ -515,7 +565,7 @@ pub fn check(mut ctx: Ctx, replay: Option<J>) -> ! {
         owner.push((*i, name.as_str().unwrap_or("").to_string()));
       }
     }
-    let sub = run_in_children("c12", &tlc.work_dir, &sub_inputs, 14, Duration::from_secs(30));
+    let sub = run_in_children("c12", &tlc.work_dir, &sub_inputs, 14, Duration::from_secs(90));
     for ((i, who), res) in owner.iter().zip(sub.iter()) {
       if res["death"].is_string() {
         let list = recs[*i]["killers"].as_array().cloned().unwrap_or_default();
